@@ -378,7 +378,9 @@ Outcome check_c05a(const Case &c, Stats &st) {
 }
 
 std::vector<std::string> num_domains(const Tier &t) {
-  return domains_with(0, CAP_ARRAY | CAP_REGION | CAP_BV, !t.thorough);
+  // the thorough tier also runs the machine-integer domains (BV profile of the
+  // machine: gen_c01_like draws a width when the domain has CAP_BV)
+  return domains_with(0, CAP_ARRAY | CAP_REGION | (t.thorough ? 0 : CAP_BV), !t.thorough);
 }
 // C13: the machine-integer domains under the BV profile of the machine
 std::vector<std::string> bv_domains(const Tier &) {
